@@ -21,9 +21,12 @@ from ..core import MachineryError, pmap
 CFG_ARGS = '''CONSTANTS
   MaxArgs = %d
   BraceAware = %s
+  UrlTyped = TRUE
+  RestoreOnAbsent = TRUE
 INIT Init
 NEXT Next
 CHECK_DEADLOCK FALSE
+INVARIANT CatcodesRestored
 INVARIANT BindsDeclared
 INVARIANT ConsumesExactly
 INVARIANT NeverStuck
@@ -32,6 +35,8 @@ INVARIANT Emit
 CFG_TYPED = '''CONSTANTS
   MaxArgs = 1
   BraceAware = TRUE
+  UrlTyped = FALSE
+  RestoreOnAbsent = TRUE
 INIT Init
 NEXT Next
 CHECK_DEADLOCK FALSE
@@ -56,10 +61,10 @@ def src_of(toks):
     return ''.join(out)
 
 
-def argstring(sig, typ='nox'):
+def argstring(sig, typ='nox', brtyp=None):
     parts = []
     for j, k in enumerate(sig):
-        n = 'a%d:%s' % (j + 1, typ)
+        n = 'a%d:%s' % (j + 1, typ if k == 'man' or brtyp is None else brtyp)
         parts.append({'star': '*', 'opt': '[ %s ]' % n, 'paren': '( %s )' % n, 'angle': '< %s >' % n, 'man': n}[k])
     return ' '.join(parts)
 
@@ -89,10 +94,19 @@ def norm_tokens(v):
 
 
 def replay_args(beh):
+    r = replay_args_typed(beh, None)
+    if r[0] != 'ok' or not any(k in ('opt', 'paren', 'angle') for k in beh['sig']):
+        return r
+    # the same call with the bracketed arguments declared as url: binding is the same, and the category codes the type
+    # changes while reading (# ~ % &) are the usual ones again afterwards
+    return replay_args_typed(beh, 'url')
+
+
+def replay_args_typed(beh, brtyp):
     from plasTeX.TeX import TeX
     from plasTeX import TeXDocument, ParameterCommand
     sig = beh['sig']
-    cls = make_class(argstring(sig))
+    cls = make_class(argstring(sig, brtyp=brtyp))
     d = TeXDocument()
     d.context.addGlobal('vmac', cls)
     tail = src_of(beh['call']) + src_of(beh['follower'])
@@ -113,18 +127,30 @@ def replay_args(beh):
                 break
             rest.append(x)
     except Exception as ex:
-        return 'raise', 'signature %r call %r raised %s: %s' % (argstring(sig), text, type(ex).__name__, ex)
+        return 'raise', 'signature %r call %r raised %s: %s' % (argstring(sig, brtyp=brtyp), text, type(ex).__name__, ex)
     if ParameterCommand._enablelevel != lvl0:
         lv = ParameterCommand._enablelevel
         ParameterCommand._enablelevel = lvl0
         return 'plevel', 'signature %r call %r left the parameter-scanning switch at level %s (was %s)' % (argstring(sig), text, lv, lvl0)
+    if brtyp:
+        codes = dict((c, d.context.whichCode(c)) for c in '#~%&')
+        if codes != {'#': 6, '~': 13, '%': 14, '&': 4} or any(str(x) == '~' and x.catcode != 13 for x in rest):
+            return 'catcodes', 'signature %r call %r: after the invocation the category codes of # ~ %% & are %s and the text that follows was read as %s' % (
+                argstring(sig, brtyp=brtyp), text, codes, [(str(x), x.catcode) for x in rest])
+        if beh.get('cat') != 'normal':
+            return 'catcodes-spec', 'the specification leaves the %s category codes in force' % beh.get('cat')
     got = []
     for j, k in enumerate(sig):
         name = '*modifier*' if k == 'star' else 'a%d' % (j + 1)
         got.append(norm_tokens(obj.attributes.get(name)))
     want = [list(w) for w in beh['want']]
+    if brtyp:
+        # a url-typed value is kept as it was written: compare the characters
+        got = [''.join(g) for g in got]
+        want = [''.join(src_of(w).split()) if w != ['ABSENT'] else 'ABSENT' for w in want]
+        got = [''.join(g.split()) for g in got]
     if got != want:
-        return 'bound', 'signature %r call %r bound %s, written %s' % (argstring(sig), text, got, want)
+        return 'bound' + (':url' if brtyp else ''), 'signature %r call %r bound %s, written %s' % (argstring(sig, brtyp=brtyp), text, got, want)
     rest_txt = ''.join(norm_tokens(rest) if rest else []).replace('ABSENT', '')
     want_rest = ''.join(beh['follower'])
     if rest_txt.strip() != want_rest.strip():
